@@ -56,7 +56,7 @@ package txmgr
 //@ func readRawCreditKey
 //@   props C01 C09 C19
 //@   requires cred != nil && cred.block != nil
-//@   modifies cred, cred.block
+//@   modifies &cred.outPoint, cred.block
 //@   ensures (err != nil) == (len(k) < 76)
 //@   ensures err == nil ==> bytesEq(cred.outPoint.Hash, 0, old(k), 0, 32) && cred.block.Height == old(be64(k, 32))
 //@   ensures err == nil ==> bytesEq(cred.block.Hash, 0, old(k), 40, 32) && cred.outPoint.Index == old(be32(k, 72))
@@ -64,7 +64,7 @@ package txmgr
 //@ func readUnminedCreditKey
 //@   props C09 C19
 //@   requires cred != nil
-//@   modifies cred
+//@   modifies &cred.outPoint
 //@   ensures (err != nil) == (len(k) != 36)
 //@   ensures err == nil ==> bytesEq(cred.outPoint.Hash, 0, old(k), 0, 32) && cred.outPoint.Index == old(be32(k, 32))
 
@@ -483,7 +483,5 @@ package txmgr
 //@   ensures err == nil ==> flags != nil
 //@   ensures err == nil && flags.SpentByUnmined ==> bhasI(B(tx, s.bucketMeta.nsUnminedInputs), canonicalOutPoint(&out.Hash, out.Index))
 //@   ensures err != nil ==> flags == nil
-//@   loop#1 modifies &cred, cred.block
-//@   loop#1 invariant cred.block == old(cred.block)
-//@   loop#2 modifies &cred, cred.block
-//@   loop#2 invariant cred.block == old(cred.block)
+//@   loop#1 modifies &cred.outPoint, &cred.amount, &cred.flags, &cred.maturity, &cred.scriptHash, cred.block
+//@   loop#2 modifies &cred.outPoint, &cred.amount, &cred.flags, &cred.maturity, &cred.scriptHash, cred.block
